@@ -1960,3 +1960,16 @@ package mpb
 //@   props    C02 C04
 //@   modifies nothing
 //@   ensures  identity: result0 == rows && result1 == nil
+
+// walking the bars from outside the container goroutine: one request, every bar handed to the
+// callback until it says stop; the walk is abandoned (drop closed, once) at the first "stop"
+//@ func (*Progress).traverseBars
+//@   props    C02 C04 C05
+//@   requires p != nil && cb != nil
+//@   ensures  atomic: sent(p.operateState) <= old(sent(p.operateState)) + 1
+//@   ensures  accepted: sent(p.operateState) == old(sent(p.operateState)) + 1 || recvd(p.done) > old(recvd(p.done))
+//@   ensures  payload: sent(p.operateState) == old(sent(p.operateState)) + 1 ==> fnof(lastSent(p.operateState)) == fn("(*Progress).traverseBars$1")
+//@   ensures  late: sent(p.operateState) == old(sent(p.operateState)) ==> called("(*Progress).traverseBars.cb") == old(called("(*Progress).traverseBars.cb"))
+//@   loop 1   invariant sent(p.operateState) == old(sent(p.operateState)) + 1 && fnof(lastSent(p.operateState)) == fn("(*Progress).traverseBars$1") && !closed(drop)
+//@ functype (*Progress).traverseBars.cb
+//@   modifies recvd()
